@@ -256,7 +256,20 @@ pub fn plans(prop: &str, tier: &str, run_seed: u64, dry: &mut dyn FnMut(&Plan) -
             let two_writers = tier == "thorough" && rng.chance(1, 3);
             if two_writers {
                 let mut p2 = gen::gen_program(&mut prng, &gc);
-                program.threads.push(p2.threads.remove(0));
+                // value ids must stay unique across the whole program
+                let ops2: Vec<Op> = p2
+                    .threads
+                    .remove(0)
+                    .into_iter()
+                    .map(|o| match o {
+                        Op::Insert(k, v) => Op::Insert(k, v + 50_000),
+                        Op::TryInsert(k, v) => Op::TryInsert(k, v + 50_000),
+                        Op::Compute(k, c, v) => Op::Compute(k, c, v + 50_000),
+                        Op::Extend(kv) => Op::Extend(kv.into_iter().map(|(k, v)| (k + 1_000, v + 50_000)).collect()),
+                        o => o,
+                    })
+                    .collect();
+                program.threads.push(ops2);
                 program.cfg.facade.push(Facade::Guarded);
             }
             // variant: the thread that is stalled is itself a reader (it may be inside a tree bin
@@ -492,9 +505,12 @@ pub fn judge(prop: &str, p: &Program, r: &RunResult, opts: &ExecOpts, js: &mut J
             // no leftover resize state (subset of C05 that C10 states itself)
             if let Some(rep) = &r.quiescent.inspect {
                 for e in &rep.wellformed_errors {
-                    if e.contains("next_table") || e.contains("size_ctl") || e.contains("transfer_index") || e.contains("forwarding marker") {
+                    if e.contains("next_table") || e.contains("size_ctl") || e.contains("forwarding marker") {
                         out.push(Violation { class: "leftover-resize-state".into(), detail: e.clone() });
                     }
+                }
+                for e in &rep.threshold_errors {
+                    out.push(Violation { class: "wrong-threshold".into(), detail: e.clone() });
                 }
             }
         }
